@@ -4,6 +4,8 @@
 use crate::engine::*;
 
 pub mod c01;
+pub mod c07;
+pub mod c08;
 
 pub struct Prop {
     pub id: &'static str,
@@ -13,6 +15,8 @@ pub struct Prop {
 
 pub const PROPS: &[Prop] = &[
     Prop { id: "C01", run: c01::run, eval: c01::eval },
+    Prop { id: "C07", run: c07::run, eval: c07::eval },
+    Prop { id: "C08", run: c08::run, eval: c08::eval },
 ];
 
 pub fn find(id: &str) -> Option<&'static Prop> {
